@@ -251,6 +251,10 @@ type evProvider struct {
 	served map[string]bool
 	// offContract is set when a different/extra answer was actually given
 	offContract bool
+	// eager: the provider hands over, with every event it serves, the auth
+	// ancestors of that event it would serve if asked (the rest of the chain in
+	// one answer). Within the contract: each is the event of that ID.
+	eager bool
 }
 
 func newProvider(r *sim.Run) *evProvider {
@@ -258,7 +262,7 @@ func newProvider(r *sim.Run) *evProvider {
 }
 
 func (p *evProvider) reset() {
-	p.calls, p.perID, p.served, p.offContract = nil, map[string]int{}, map[string]bool{}, false
+	p.calls, p.perID, p.served, p.offContract, p.eager = nil, map[string]int{}, map[string]bool{}, false, false
 }
 
 // answer is the pure scripted function (no logging, no counters).
@@ -285,6 +289,20 @@ func (p *evProvider) answer(ids []string) ([]gmsl.PDU, error) {
 			}
 			if p.other != nil {
 				out = append(out, p.other)
+			}
+		}
+	}
+	if p.eager {
+		have := map[string]bool{}
+		for _, e := range out {
+			have[e.EventID()] = true
+		}
+		for i := 0; i < len(out); i++ {
+			for _, a := range out[i].AuthEventIDs() {
+				if e := p.store[a]; e != nil && !have[a] && p.script[a] == pvServe {
+					have[a] = true
+					out = append(out, e)
+				}
 			}
 		}
 	}
